@@ -25,6 +25,7 @@ type Prog struct {
 	typeByID map[int]types.Type
 	named   map[string]*types.Named
 	ifaceMethods map[string]*types.Func // "core.Limit.OnSample"
+	findings map[string]*KnownFinding // open known findings by obligation name
 }
 
 var repoPkgDirs = []string{"./core", "./strategy", "./strategy/matchers", "./limit", "./limit/functions", "./measurements",
@@ -97,6 +98,14 @@ func loadProg(repo string, dirs []string) (*Prog, error) {
 		return nil, err
 	}
 	p.specs = specs
+	p.findings = map[string]*KnownFinding{}
+	kf := loadKnownFindings(verifDir)
+	for i := range kf.Findings {
+		f := &kf.Findings[i]
+		if f.Status == "" || f.Status == "open" {
+			p.findings[f.Obligation] = f
+		}
+	}
 	return p, nil
 }
 
